@@ -125,6 +125,7 @@ package account
 //@   ensures [prefix]    forall i int :: 0 <= i && i < old(len(ao.db.transitions)) ==> ao.db.transitions[i] == old(ao.db.transitions[i])
 //@   ensures [state]     ao.touched && ao.onDirty == nil
 //@   ensures [dirty]     old(ao.onDirty) != nil ==> has(ao.db.accountObjectsDirty, ao.address)
+//@   ensures [dirtyframe] (forall k common.Address :: k != ao.address ==> has(ao.db.accountObjectsDirty, k) == old(has(ao.db.accountObjectsDirty, k))) && (old(ao.onDirty) == nil ==> has(ao.db.accountObjectsDirty, ao.address) == old(has(ao.db.accountObjectsDirty, ao.address)))
 //@   modifies ao.db.transitions, elems(ao.db.transitions), ao.onDirty, ao.touched, heap("map[common.Address]struct{}")
 
 //@ func touchChange.undo
@@ -135,6 +136,7 @@ package account
 //@   ensures [keepdirty] (ch.prev || *ch.account == ripemd || ch.prevDirty) ==> has(s.accountObjectsDirty, *ch.account) == old(has(s.accountObjectsDirty, *ch.account))
 //@   ensures [keep]    (ch.prev || *ch.account == ripemd) ==> ptr(accountObject, old(registered(ref(s), *ch.account))).touched == old(ptr(accountObject, registered(ref(s), *ch.account)).touched)
 //@   ensures [others]  forall k common.Address :: k != *ch.account ==> has(s.accountObjectsDirty, k) == old(has(s.accountObjectsDirty, k))
+//@   modifies ghost(acct), ptr(accountObject, registered(ref(s), *ch.account)).touched, heap("map[common.Address]struct{}")
 
 // Nonce
 //@ func accountObject.setNonce
@@ -256,17 +258,26 @@ package account
 //@   ensures bytes(result) == @select(@select(ghost(stor), ref(ao)), old(bytes(key)))
 //@   modifies nothing
 
+// SetData journals the previous content of the slot (what GetData answers) unless the write changes nothing.
 //@ func accountObject.SetData
-//@   option trusted
+//@   property C04
 //@   requires ao != nil
-//@   ensures ghost(stor) == @store(old(ghost(stor)), ref(ao), @store(@select(old(ghost(stor)), ref(ao)), old(bytes(key)), old(bytes(value))))
-//@   modifies ghost(stor)
+//@   requires [object!init] ao.cachedStorage != nil && ao.dirtyStorage != nil && ao.db != nil
+//@   ensures [stor]    ghost(stor) == @store(old(ghost(stor)), ref(ao), @store(@select(old(ghost(stor)), ref(ao)), old(bytes(key)), old(bytes(value))))
+//@   ensures [noop]    old(bytes(value)) == old(@select(@select(ghost(stor), ref(ao)), bytes(key))) ==> len(ao.db.transitions) == old(len(ao.db.transitions))
+//@   ensures [journal] old(bytes(value)) != old(@select(@select(ghost(stor), ref(ao)), bytes(key))) ==> len(ao.db.transitions) == old(len(ao.db.transitions)) + 1 && istype(ao.db.transitions[len(ao.db.transitions)-1], storageChange) && bytes(unbox(ao.db.transitions[len(ao.db.transitions)-1], storageChange).prevalue) == old(@select(@select(ghost(stor), ref(ao)), bytes(key))) && bytes(unbox(ao.db.transitions[len(ao.db.transitions)-1], storageChange).key) == old(bytes(key)) && unbox(ao.db.transitions[len(ao.db.transitions)-1], storageChange).account != nil && *unbox(ao.db.transitions[len(ao.db.transitions)-1], storageChange).account == ao.address
+//@   modifies ghost(stor), ao.db.transitions, elems(ao.db.transitions), entries(ao.cachedStorage), entries(ao.dirtyStorage), ao.onDirty, heap("map[common.Address]struct{}")
 
+// setData writes the slot into the object's cache AND into its dirty-slot map: the value is pending for the
+// next flush (updateTrie), also when it is empty (a pending delete).
 //@ func accountObject.setData
-//@   option trusted
+//@   property C04
 //@   requires ao != nil
-//@   ensures ghost(stor) == @store(old(ghost(stor)), ref(ao), @store(@select(old(ghost(stor)), ref(ao)), old(bytes(key)), old(bytes(value))))
-//@   modifies ghost(stor)
+//@   requires [object!init] ao.cachedStorage != nil && ao.dirtyStorage != nil && ao.db != nil
+//@   ensures [stor!assumed] ghost(stor) == @store(old(ghost(stor)), ref(ao), @store(@select(old(ghost(stor)), ref(ao)), old(bytes(key)), old(bytes(value))))
+//@   ensures [pending] forall k string :: bytes(k) == old(bytes(key)) ==> has(ao.dirtyStorage, k) && ao.dirtyStorage[k] == value
+//@   ensures [cached]  forall k string :: bytes(k) == old(bytes(key)) ==> has(ao.cachedStorage, k) && ao.cachedStorage[k] == value
+//@   modifies ghost(stor), entries(ao.cachedStorage), entries(ao.dirtyStorage), ao.onDirty, heap("map[common.Address]struct{}")
 
 // Tokens without a binding live in the holder's own storage; that branch is delegated to the account object.
 //@ func accountObject.SubFT
@@ -318,12 +329,15 @@ package account
 //@   ensures [none]    !result ==> len(adb.transitions) == old(len(adb.transitions)) && ghost(bal) == old(ghost(bal))
 //@   ensures [zero]    result ==> balOf(addr) == 0
 //@   ensures [live]    old(registered(ref(adb), addr)) != 0 && !old(ptr(accountObject, registered(ref(adb), addr)).deleted) ==> result
+//@   ensures [kept]    old(registered(ref(adb), addr)) != 0 && !old(ptr(accountObject, registered(ref(adb), addr)).deleted) ==> registered(ref(adb), addr) == old(registered(ref(adb), addr)) && !ptr(accountObject, registered(ref(adb), addr)).deleted
+//@   modifies adb.transitions, elems(adb.transitions), ghost(acct), ghost(bal), ghost(supply), ghost(stor), heap("storage/account.accountObject"), heap("map[common.Address]struct{}")
 
 //@ func suicideChange.undo
 //@   property C04
 //@   requires s != nil && ch.account != nil && ch.prevbalance != nil
 //@   ensures [balance] old(registered(ref(s), *ch.account)) != 0 && !old(ptr(accountObject, registered(ref(s), *ch.account)).deleted) ==> balOf(*ch.account) == big(ch.prevbalance)
 //@   ensures [flag]    old(registered(ref(s), *ch.account)) != 0 && !old(ptr(accountObject, registered(ref(s), *ch.account)).deleted) ==> ptr(accountObject, old(registered(ref(s), *ch.account))).suicided == ch.prev
+//@   modifies ghost(acct), ghost(bal), ghost(supply), ghost(stor), heap("storage/account.accountObject")
 
 // ---------------------------------------------------------------------------------------------
 // Flushing dirty storage (C01): the post-state root may not depend on the order in which Go ranges over the
@@ -371,10 +385,14 @@ package account
 //@   ensures [prefix]   forall i int :: 0 <= i && i < old(len(adb.transitions)) ==> adb.transitions[i] == old(adb.transitions[i])
 //@   ensures [appended] has(adb.logs, adb.thash) && (old(has(adb.logs, adb.thash)) ==> len(adb.logs[adb.thash]) == old(len(adb.logs[adb.thash])) + 1) && (!old(has(adb.logs, adb.thash)) ==> len(adb.logs[adb.thash]) == 1)
 //@   ensures [others]   forall h common.Hash :: h != adb.thash ==> has(adb.logs, h) == old(has(adb.logs, h))
+//@   modifies adb.transitions, elems(adb.transitions), adb.logSize, entries(adb.logs), log.TxHash, log.BlockHash, log.TxIndex, log.Index, heap("*middleware/types.Log")
 
 //@ func addLogChange.undo
 //@   property C04
-//@   requires s != nil && has(s.logs, ch.txhash) && len(s.logs[ch.txhash]) >= 1 && s.logSize >= 1
+//@   requires [nonnil] s != nil
+//@   requires [has] has(s.logs, ch.txhash)
+//@   requires [len] len(s.logs[ch.txhash]) >= 1
+//@   requires [size] s.logSize >= 1
 //@   ensures [count]  s.logSize == old(s.logSize) - 1
 //@   ensures [popped] (old(len(s.logs[ch.txhash])) == 1 ==> !has(s.logs, ch.txhash)) && (old(len(s.logs[ch.txhash])) > 1 ==> has(s.logs, ch.txhash) && len(s.logs[ch.txhash]) == old(len(s.logs[ch.txhash])) - 1)
 //@   ensures [others] forall h common.Hash :: h != ch.txhash ==> has(s.logs, h) == old(has(s.logs, h))
@@ -482,3 +500,47 @@ package account
 //@   ensures [rootref] leafOK(old(bytes(leaf))) && decodedAccount(old(bytes(leaf))).Root != emptyData ==> @select(@select(ghost(refd), bytes(parent)), bytes(decodedAccount(old(bytes(leaf))).Root))
 //@   ensures [coderef] leafOK(old(bytes(leaf))) && @tohash32(bytes(decodedAccount(old(bytes(leaf))).NFTSetDefinitionHash)) != bytes(emptyCode) ==> @select(@select(ghost(refd), bytes(parent)), @tohash32(bytes(decodedAccount(old(bytes(leaf))).NFTSetDefinitionHash)))
 //@   ensures [ok] result == nil
+
+// ---------------------------------------------------------------------------------------------
+// Frame lemmas (C04): each lemma function (zz_verif_lemmas.go, real Go under the verif tag) runs one journaled
+// mutator and then the undo of the entry it appended - what RevertToSnapshot does for a frame holding that
+// entry. The contract says the queries of the property answer as before the frame.
+//@ func lemmaAddRefundUndo
+//@   property C04
+//@   requires adb != nil
+//@   ensures [refund] adb.refund == old(adb.refund)
+
+//@ func lemmaAddLogUndo
+//@   property C04
+//@   requires adb != nil && log != nil && adb.logs != nil && adb.logSize < 4294967295
+//@   # representation invariant: a transaction that has an entry in the log map has at least one log (the undo
+//@   # deletes the entry when it removes the last one)
+//@   requires [nonempty] has(adb.logs, adb.thash) ==> len(adb.logs[adb.thash]) >= 1 && len(adb.logs[adb.thash]) < 4611686018427387904
+//@   ensures [count] adb.logSize == old(adb.logSize)
+//@   ensures [list]  has(adb.logs, adb.thash) == old(has(adb.logs, adb.thash)) && (old(has(adb.logs, adb.thash)) ==> len(adb.logs[adb.thash]) == old(len(adb.logs[adb.thash])))
+//@   ensures [others] forall h common.Hash :: h != adb.thash ==> has(adb.logs, h) == old(has(adb.logs, h))
+
+//@ func lemmaTouchUndo
+//@   property C04
+//@   requires ao != nil && ao.db != nil && registered(ref(ao.db), ao.address) == ref(ao) && !ao.deleted
+//@   # representation invariant: an object that still holds its dirty callback has not been marked dirty
+//@   requires [callback] ao.onDirty != nil ==> !has(ao.db.accountObjectsDirty, ao.address)
+//@   ensures [touched] ao.address != ripemd ==> ao.touched == old(ao.touched)
+//@   ensures [dirty]   ao.address != ripemd && !old(ao.touched) ==> has(ao.db.accountObjectsDirty, ao.address) == old(has(ao.db.accountObjectsDirty, ao.address))
+
+//@ func lemmaSuicideUndo
+//@   property C04
+//@   requires adb != nil && common.Big0 != nil && big(common.Big0) == 0
+//@   requires [live] registered(ref(adb), addr) != 0 && !ptr(accountObject, registered(ref(adb), addr)).deleted
+//@   ensures [balance] balOf(addr) == old(balOf(addr))
+//@   ensures [flag]    ptr(accountObject, old(registered(ref(adb), addr))).suicided == old(ptr(accountObject, registered(ref(adb), addr)).suicided)
+
+// Undo of a storage write (C04): the previous value is back in the slot AND pending for the flush - also an
+// empty previous value: the slot may hold a committed value that an earlier, unreverted clear of this block
+// has to delete from the trie.
+//@ func storageChange.undo
+//@   property C04
+//@   requires s != nil && ch.account != nil && registered(ref(s), *ch.account) != 0 && !ptr(accountObject, registered(ref(s), *ch.account)).deleted
+//@   requires [object!init] ptr(accountObject, registered(ref(s), *ch.account)).cachedStorage != nil && ptr(accountObject, registered(ref(s), *ch.account)).dirtyStorage != nil && ptr(accountObject, registered(ref(s), *ch.account)).db != nil
+//@   ensures [pending] forall k string :: bytes(k) == bytes(ch.key) ==> has(ptr(accountObject, old(registered(ref(s), *ch.account))).dirtyStorage, k) && ptr(accountObject, old(registered(ref(s), *ch.account))).dirtyStorage[k] == ch.prevalue
+//@   ensures [restore] ghost(stor) == @store(old(ghost(stor)), old(registered(ref(s), *ch.account)), @store(@select(old(ghost(stor)), old(registered(ref(s), *ch.account))), bytes(ch.key), bytes(ch.prevalue)))
